@@ -7,6 +7,7 @@ Code-shaped models: Model/Sha256.lean, Model/Md.lean, Model/Bc.lean.
 import RelicVerif.Lemmas.Md
 import RelicVerif.Lemmas.ShaStream
 import RelicVerif.Lemmas.Blake2s
+import RelicVerif.Lemmas.Aes
 
 namespace Relic.Props.C14
 open Relic.Spec Relic.Model Relic.Lemmas.Md
@@ -177,6 +178,88 @@ theorem aes_cbc_rejects_bad_padding (mkD : Bytes → Bytes → Bytes) (key iv c 
   · simp at hdec
   rename_i hcond
   exact ⟨by omega, by omega, pkcs7Unpad_sound _ _ hdec⟩
+
+-- `Bc.aesE key` / `Bc.aesD key`: FIPS 197 Cipher / InvCipher under the FIPS 197 key expansion — the block functions the
+-- driver plugs into the model of bc_aes_cbc_enc / bc_aes_cbc_dec
+open Relic.Model.Bc (aesE aesD)
+
+def validKey (key : Bytes) : Prop := key.length = 16 ∨ key.length = 24 ∨ key.length = 32
+
+/-- FIPS 197: InvCipher inverts Cipher for every key size, every key and every block (S-box bijection checked over
+    all 256 entries by the kernel, InvShiftRows∘ShiftRows, InvMixColumns∘MixColumns through GF(2^8) linearity,
+    AddRoundKey involution, for an arbitrary list of round keys — so in particular for the FIPS 197 key schedule) -/
+theorem aes_invCipher_cipher (key b : Bytes) (hk : validKey key) (hb : b.length = 16) :
+    Aes.invCipher (Aes.keyExpansion key) (Aes.cipher (Aes.keyExpansion key) b) = b :=
+  Relic.Lemmas.Aes.invCipher_cipher key b hk hb
+
+/-- bc_aes_cbc_enc (model) = SP 800-38A CBC ∘ PKCS#7 with the FIPS 197 cipher, for every plaintext length incl. 0
+    and exact multiples of the block size, whenever the key size is valid and the output buffer is large enough -/
+theorem aes_cbc_enc_conforms (key iv m : Bytes) (cap : Nat) (hk : validKey key) (hiv : iv.length = 16)
+    (hcap : m.length + (16 - m.length % 16) ≤ cap) :
+    Bc.bcAesCbcEnc aesE cap m key iv = some (Aes.aesCbcPkcs7Enc key iv m) := by
+  unfold Bc.bcAesCbcEnc
+  rw [if_neg (by omega), if_neg (by unfold validKey at hk; omega)]
+  rw [padEncrypt_eq (aesE key) (fun b hb => Relic.Lemmas.Aes.cipher_length key b hk hb) iv hiv m]
+  rfl
+
+/-- bc_aes_cbc_dec (model) = PKCS#7-unpad ∘ CBC-decrypt of the specification, for every input -/
+theorem aes_cbc_dec_conforms (key iv c : Bytes) (cap : Nat) (hk : validKey key) (hiv : iv.length = 16)
+    (hcap : c.length ≤ cap) :
+    Bc.bcAesCbcDec aesD cap c key iv = Aes.aesCbcPkcs7Dec key iv c := by
+  unfold Bc.bcAesCbcDec
+  rw [if_neg (by omega), if_neg (by unfold validKey at hk; omega)]
+  rw [padDecrypt_eq (aesD key) (fun b hb => Relic.Lemmas.Aes.invCipher_length key b hk hb) iv hiv c]
+  rfl
+
+/-- AES-CBC with PKCS#7, concrete: whatever bc_aes_cbc_enc returns decrypts to the plaintext — no hypothesis on the
+    block cipher any more (`aes_cbc_roundtrip` instantiated with `aes_invCipher_cipher`) -/
+theorem aes_cbc_roundtrip_concrete (key iv m : Bytes) (cap : Nat) (hiv : iv.length = 16) (c : Bytes)
+    (henc : Bc.bcAesCbcEnc aesE cap m key iv = some c) :
+    Bc.bcAesCbcDec aesD c.length c key iv = some m := by
+  by_cases hk : validKey key
+  · exact aes_cbc_roundtrip aesE aesD key iv m cap
+      (fun b hb => Relic.Lemmas.Aes.invCipher_cipher key b hk hb)
+      (fun b hb => Relic.Lemmas.Aes.cipher_length key b hk hb)
+      (fun b hb => Relic.Lemmas.Aes.invCipher_length key b hk hb) hiv c henc
+  · exfalso
+    unfold Bc.bcAesCbcEnc at henc
+    unfold validKey at hk
+    split at henc
+    · simp at henc
+    · rw [if_pos (by omega)] at henc; simp at henc
+
+/-- the specification level: for every message (every length incl. empty and multiples of 16), every valid key and
+    every 16-byte IV, decryption of the encryption is the message -/
+theorem aes_cbc_pkcs7_roundtrip (key iv m : Bytes) (hk : validKey key) (hiv : iv.length = 16) :
+    Aes.aesCbcPkcs7Dec key iv (Aes.aesCbcPkcs7Enc key iv m) = some m := by
+  have henc := aes_cbc_enc_conforms key iv m (m.length + (16 - m.length % 16)) hk hiv (Nat.le_refl _)
+  have hrt := aes_cbc_roundtrip_concrete key iv m _ hiv _ henc
+  rwa [aes_cbc_dec_conforms key iv _ _ hk hiv (Nat.le_refl _)] at hrt
+
+/-- the ciphertext is a positive whole number of blocks, exactly the padded length -/
+theorem aes_cbc_enc_length (key iv m : Bytes) (hk : validKey key) (hiv : iv.length = 16) :
+    (Aes.aesCbcPkcs7Enc key iv m).length = m.length + (16 - m.length % 16) := by
+  have hE : ∀ b : Bytes, b.length = 16 → (Aes.cipher (Aes.keyExpansion key) b).length = 16 :=
+    fun b hb => Relic.Lemmas.Aes.cipher_length key b hk hb
+  obtain ⟨hP16, _⟩ := pkcs7Pad_length m
+  unfold Aes.aesCbcPkcs7Enc
+  simp only
+  obtain ⟨hBf, hB16⟩ := flatten_chunks16 ((Aes.pkcs7Pad m).length / 16 + 1) (Aes.pkcs7Pad m) (by omega) hP16
+  obtain ⟨hCSl, hCS16⟩ := cbcEnc_blocks (Aes.cipher (Aes.keyExpansion key)) hE iv hiv _ hB16
+  rw [flatten_length16 _ hCS16, hCSl, ← flatten_length16 _ hB16, hBf]
+  simp [Aes.pkcs7Pad]
+
+/-- concrete rejection: bc_aes_cbc_dec returns data only if the CBC decryption under the FIPS 197 inverse cipher ends
+    in a well-formed PKCS#7 padding (and the input is a positive multiple of 16 bytes) -/
+theorem aes_cbc_rejects_bad_padding_concrete (key iv c m : Bytes) (cap : Nat) (hk : validKey key) (hiv : iv.length = 16)
+    (hdec : Bc.bcAesCbcDec aesD cap c key iv = some m) :
+    c.length ≠ 0 ∧ c.length % 16 = 0 ∧
+    ∃ k : Nat, 1 ≤ k ∧ k ≤ 16 ∧
+      (Aes.cbcDec (aesD key) iv (Aes.chunks16 (c.length / 16 + 1) c)).flatten = m ++ List.replicate k (UInt8.ofNat k) :=
+  aes_cbc_rejects_bad_padding aesD key iv c m cap (fun b hb => Relic.Lemmas.Aes.invCipher_length key b hk hb) hiv hdec
+
+/-- non-vacuity: a 16-byte key is valid -/
+example : validKey (List.replicate 16 0) := Or.inl (by simp)
 
 /-- non-vacuity: PKCS#7 of a 3-byte message; the padding split of SHA-256 at 55/56 bytes -/
 example : Aes.pkcs7Pad [1, 2, 3] = [1, 2, 3] ++ List.replicate 13 13 := by decide
